@@ -35,7 +35,7 @@ def run_one(mut):
             return mut, "MUTANT-DOES-NOT-COMPILE", str(e)
         env = dict(os.environ, PFSA_REPO=str(tmp), PFSA_VERIF=str(tmp / "verif"))
         (tmp / "verif").mkdir()
-        kf = os.environ.get("PFSA_KNOWN")
+        kf = os.environ.get("PFSA_KNOWN", str(HERE.parent / "known_findings.json"))
         if kf:
             shutil.copy(kf, tmp / "verif" / "known_findings.json")
         r = subprocess.run([PY, "-W", "ignore", "-m", "pfsa", mut["property"], os.environ.get("ST_TIER", "quick")], cwd=str(HERE.parent), env=env, capture_output=True, text=True, timeout=900)
